@@ -9,7 +9,15 @@ evaluator (the `do_eval` of the global calc function):
        order (left, right);
  (ii)  when that gives no value, the node that is emitted is `BinOp::new(a, .., op, .., b)` with the same
        operator and the same two evaluated operands in the same order: a calculation that cannot be
-       simplified keeps its operands and operator structure, it never becomes a different number.
+       simplified keeps its operands and operator structure, it never becomes a different number;
+ (iii) the structure survives printing: the writer of an unevaluated binary node
+       (`Display for Formatted<BinOp>`) puts an operand that is itself a binary node in parentheses
+       exactly when arithmetic needs them.  The writer's parenthesisation guards for the left and for the
+       right operand are evaluated statically (lib/guardeval, a finite evaluation of the guard's AST over
+       the operator enum) for all 16 pairs of `+ - * /` and compared with the table arithmetic dictates:
+       left: a `+`/`-` node under `*`/`/`; right: a `+`/`-` node under `*`/`/`, any `+`/`-` node under
+       `-`, any `*`/`/` node under `/`.  (A redundant pair of parentheses is not a violation; a missing
+       one changes the value of the calculation.)
 """
 from lib import mir, sym
 
@@ -19,6 +27,7 @@ def run(ctx, F):
                        "Operator::eval with the node's operator and operands in order, and otherwise rebuilds the node from the same operator and operands (MIR, symbolic provenance)")
     prog = F.lib
     S = sym.Sym(prog, inline_depth=0)
+    paren_tables(ctx, F)
     cands = [b for d, b in prog.bodies.items() if d.startswith("sass::functions::math::css::") and d.endswith("::do_eval")]
     if len(cands) != 1:
         ctx.anchor_lost("calculation evaluator (math::css::..::do_eval)", f"found {len(cands)}")
@@ -58,3 +67,97 @@ def run(ctx, F):
             ctx.fail("F4-calc-fallback", key, f"the unsimplified node is rebuilt from ({', '.join(roles)}): expected the same left operand, operator and right operand as the evaluated node", where=b.where(bi))
     if not evals and not news:
         return
+
+
+ARITH = ("Plus", "Minus", "Multiply", "Div")
+
+
+def needs_paren(side, op, inner):
+    add = ("Plus", "Minus")
+    if inner in add and op not in add:
+        return True
+    if side == "right":
+        if op == "Minus" and inner in add:
+            return True
+        if op == "Div" and inner not in add:
+            return True
+    return False
+
+
+def paren_tables(ctx, F):
+    """(iii) decision tables of the BinOp writer"""
+    from lib import ast as A, guardeval
+    tree = F.ast
+    fs = [f for f in tree.fn_list if f["path"].startswith("css::binop::") and "Display" in f["path"] and f["path"].endswith("::fmt") and "BinOp" in f["path"]]
+    if len(fs) != 1:
+        ctx.anchor_lost("Display for Formatted<BinOp>", f"found {len(fs)}")
+        return
+    f = fs[0]
+    try:
+        ev = guardeval.Eval(tree, "value::operator::Operator")
+    except guardeval.Unknown as e:
+        ctx.anchor_lost("Operator enum", str(e))
+        return
+    module = f["path"].split("::<")[0]
+
+    def wraps(x):
+        for n in A.walk(x):
+            if n.get("e") == "lit" and n.get("t") in ("char", "str") and n.get("v") == "(":
+                return True
+            if n.get("e") == "call" and A.strip(n["f"]).get("e") == "path" and A.strip(n["f"])["p"].endswith("Paren"):
+                return True
+        return False
+
+    found = {}
+    for side, fld in (("left", "a"), ("right", "b")):
+        for n in A.walk(f["body"]):
+            if n.get("e") != "match":
+                continue
+            on = A.strip(n["on"])
+            on_txt = A.show(on).replace(" ", "").replace("&", "")
+            elems = [A.show(y).replace(" ", "").replace("&", "") for y in on["xs"]] if on.get("e") == "tuple" else [on_txt]
+            if not any(e_ == f"self.value.{fld}" for e_ in elems):
+                continue
+            pos = [i for i, e_ in enumerate(elems) if e_ == f"self.value.{fld}"][0]
+            oppos = [i for i, e_ in enumerate(elems) if e_ == "self.value.op"]
+            for arm in n["arms"]:
+                pat = arm["pat"]
+                sub = pat["xs"][pos] if pat.get("p") == "tuple" and on.get("e") == "tuple" else pat
+                if not (sub.get("p") == "tstruct" and sub["v"].endswith("BinOp") and len(sub["xs"]) == 1 and sub["xs"][0].get("p") == "bind"):
+                    continue
+                inner = sub["xs"][0]["n"]
+                opname = "op"
+                if oppos and pat.get("p") == "tuple" and pat["xs"][oppos[0]].get("p") == "bind":
+                    opname = pat["xs"][oppos[0]]["n"]
+                found[side] = (arm, inner, opname, wraps(arm["body"]))
+                break
+            if side in found:
+                break
+    for side in ("left", "right"):
+        table = {}
+        err = None
+        for op in ARITH:
+            for inner in ARITH:
+                if side not in found or not found[side][3]:
+                    table[(op, inner)] = False
+                    continue
+                arm, iv, opname, _ = found[side]
+                env = {opname: ("V", op), "op": ("V", op), f"{iv}.op": ("V", inner), "__module__": module}
+                try:
+                    table[(op, inner)] = True if arm.get("guard") is None else bool(ev.run(arm["guard"], env))
+                except guardeval.Unknown as e:
+                    err = str(e)
+        if err:
+            ctx.anchor_lost(f"BinOp writer|{side} operand guard", f"the parenthesisation guard could not be evaluated statically: {err}")
+            continue
+        for op in ARITH:
+            for inner in ARITH:
+                want = needs_paren(side, op, inner)
+                got = table[(op, inner)]
+                sym_ = {"Plus": "+", "Minus": "-", "Multiply": "*", "Div": "/"}
+                shape = f"(x {sym_[inner]} y) {sym_[op]} z" if side == "left" else f"x {sym_[op]} (y {sym_[inner]} z)"
+                key = f"BinOp writer|{side} operand {inner} under {op}"
+                if got or not want:
+                    ctx.ok("F5-calc-parentheses", key, None)
+                else:
+                    ctx.fail("F5-calc-parentheses", key, f"an unevaluated `{shape}` is written without the parentheses: the emitted calculation has a different operator structure (and value)", where=f["path"])
